@@ -39,6 +39,12 @@ type WatchWorld struct {
 	TaskDurs []int        `json:"durs"`
 	// Relative: patterns are relative and taskctl is "started" in the root of the tree
 	Relative bool `json:"relative,omitempty"`
+	// NAfter: the watched task has that many `after` commands; Fails[k]: the command of the k-th
+	// run of the task (0 = the initial run) exits with status 1. Every run is an execution of the
+	// task in its own right (C06): a run whose command succeeds is followed by the after commands,
+	// whatever the earlier runs did.
+	NAfter int    `json:"nafter,omitempty"`
+	Fails  []bool `json:"fails,omitempty"`
 }
 
 var opNames = map[uint32]string{1: "create", 2: "write", 4: "remove", 8: "rename", 16: "chmod"}
@@ -182,6 +188,12 @@ func GenWatchWorld(ch *Choices, thorough bool) *WatchWorld {
 	}
 	w.TaskDurs = append(w.TaskDurs, ch.Choose(1500, "task-dur"))
 	w.Relative = ch.Bool(1, 2, "relative-patterns")
+	if ch.Bool(1, 2, "after-hooks") {
+		w.NAfter = ch.Range(1, 2, "n-after")
+		for i := 0; i <= nh; i++ {
+			w.Fails = append(w.Fails, ch.Bool(1, 3, "run-fails"))
+		}
+	}
 	return w
 }
 
@@ -217,14 +229,23 @@ func runWatchJob(c *Ctl, job *Job, idx int, res *RunResult, pre *watchPre) {
 
 	pl := newProcLayer(c)
 	pl.envF = envFilter
-	var execs []*ExecInfo
+	var execs []*ExecInfo    // executions of the task's command, in start order (= runs of the task)
+	var allExecs []*ExecInfo // including after hooks
+	exitOf := map[string]int{}
 	consumed := 0
 	ended := map[string]bool{}
 	runReturned := false
 	c.onEvent = func(ev *Event) {
 		switch ev.Kind {
 		case "exec-start":
-			execs = append(execs, ev.Data.(*ExecInfo))
+			info := ev.Data.(*ExecInfo)
+			allExecs = append(allExecs, info)
+			if info.Block == "cmd" {
+				if k := len(execs); k < len(w.Fails) && w.Fails[k] {
+					exitOf[info.Key] = 1
+				}
+				execs = append(execs, info)
+			}
 		case "exec-end":
 			ended[ev.Subject] = true
 		case "watch-run-return":
@@ -302,10 +323,10 @@ func runWatchJob(c *Ctl, job *Job, idx int, res *RunResult, pre *watchPre) {
 					c.Release(p, Action{Kind: "go"})
 				} else {
 					info := p.Data.(*ExecInfo)
-					if c.Now()-info.StartAt < dur() {
+					if info.Block == "cmd" && c.Now()-info.StartAt < dur() {
 						continue
 					}
-					c.Release(p, Action{Kind: "exit", Code: 0})
+					c.Release(p, Action{Kind: "exit", Code: exitOf[info.Key]})
 				}
 			}
 			c.Advance(250 * time.Millisecond)
@@ -425,6 +446,38 @@ func runWatchJob(c *Ctl, job *Job, idx int, res *RunResult, pre *watchPre) {
 		}
 	}
 	_ = noise
+	// C06 for every run of the task: command, then (iff it succeeded) the after commands, once each
+	if w.NAfter > 0 {
+		byG := map[int64][]*ExecInfo{}
+		var gids []int64
+		for _, x := range allExecs {
+			if _, ok := byG[x.GID]; !ok {
+				gids = append(gids, x.GID)
+			}
+			byG[x.GID] = append(byG[x.GID], x)
+		}
+		for k, g := range gids {
+			var got []string
+			for _, x := range byG[g] {
+				got = append(got, x.ID)
+			}
+			want := []string{execID("wt", "cmd", 0, "")}
+			failed := exitOf[byG[g][0].Key] != 0
+			if !failed {
+				for i := 0; i < w.NAfter; i++ {
+					want = append(want, execID("wt", "after", i, ""))
+				}
+			}
+			if strings.Join(got, " ") != strings.Join(want, " ") {
+				c.Violate("C06", "rerun-sequence", "run %d of the watched task (command exit status %d; earlier runs failed: %v) executed %v, want %v", k, exitOf[byG[g][0].Key], w.Fails[:minInt(k, len(w.Fails))], got, want)
+				break
+			}
+			c.Count("c06_watch_runs_checked")
+			if !failed && k > 0 && anyTrue(w.Fails[:minInt(k, len(w.Fails))]) {
+				c.Count("c06_successful_rerun_after_failed_run")
+			}
+		}
+	}
 	// shut down
 	wt.VerifSetEvents(orig)
 	go func() {
@@ -505,7 +558,7 @@ func prepareWatch(ch *Choices, job *Job, idx int) *watchPre {
 			return pre
 		}
 	}
-	t := buildRealTask(&TaskSpec{Name: "wt", NCmd: 1})
+	t := buildRealTask(&TaskSpec{Name: "wt", NCmd: 1, NAfter: pre.w.NAfter})
 	pollersBefore := countPollers()
 	wt, err := watch.NewWatcher("w", pre.w.Events, abs(pre.w.Include), abs(pre.w.Exclude), t)
 	if err != nil {
@@ -544,4 +597,20 @@ func relKeys(root string, m map[string]int) []string {
 	}
 	sort.Strings(out)
 	return out
+}
+
+func minInt(a, b int) int {
+	if a < b {
+		return a
+	}
+	return b
+}
+
+func anyTrue(bs []bool) bool {
+	for _, b := range bs {
+		if b {
+			return true
+		}
+	}
+	return false
 }
